@@ -71,7 +71,8 @@ pub fn evidence_json(st: &Stats, m: &EvidenceMeta) -> J {
             ("case", j),
         ]));
     }
-    let runs_per_hour = if m.wall_s > 0.0 { (evaluations as f64 / m.wall_s * 3600.0) as u64 } else { 0 };
+    let runs_per_hour = if m.wall_s > 0.0 { (st.runs as f64 / m.wall_s * 3600.0) as u64 } else { 0 };
+    let chains_per_hour = if m.wall_s > 0.0 { (st.chains as f64 / m.wall_s * 3600.0) as u64 } else { 0 };
     let probes_at_zero: Vec<J> = crate::PROBE_NAMES
         .iter()
         .filter(|p| st.probes.get(*p).copied().unwrap_or(0) == 0)
@@ -89,7 +90,9 @@ pub fn evidence_json(st: &Stats, m: &EvidenceMeta) -> J {
         ("exhaustive_subspaces", J::S(m.exhaustive_note.clone())),
         ("simulated_runs", J::U(st.runs)),
         ("runs_by_mode", J::O(st.runs_by_mode.iter().map(|(k, v)| (mode_name(*k).to_string(), J::U(*v))).collect())),
-        ("runs_per_hour", J::U(runs_per_hour)),
+        ("simulated_runs_per_hour", J::U(runs_per_hour)),
+        ("builder_chains_per_hour", J::U(chains_per_hour)),
+        ("seeds", J::A(vec![J::U(m.seed)])),
         ("workers", J::U(m.workers as u64)),
         ("simulated_time", J::s("not applicable: the code under test has no clock, timer or deadline; progress is measured in derivative calls and next() calls")),
         ("derivative_calls", J::U(st.deriv_calls)),
